@@ -495,7 +495,7 @@ TRUSTED_BASE = [
     "extraction ExtrOcamlBasic (bool/option/unit/list/prod/sumbool/sumor -> OCaml), OCaml 4.13.1, ocaml/driver.ml (parsing/printing; two unverified list comparisons for asynchronous / second-solve call multisets)",
     "hand-written model <-> code relation: tied per run by the correspondence / trace check named in checker_cmd",
     "harness: harness/src (table provider, generators, schedulers), tools/vlib.py serialisers",
-    "verif-hooks emit sites in /repo (feature off by default): decision_tracker.rs (3), solver/mod.rs verif_dump + SoftRegister + AnalyzeUnsolvable + Decide events, solver/encoding.rs Encode + TaskDone + EncodeResult events, negative assertions in the dump, conflict.rs verif_clauses",
+    "verif-hooks emit sites in /repo (feature off by default): decision_tracker.rs (3), solver/mod.rs verif_dump + SoftRegister + AnalyzeUnsolvable + Decide + Propagate + PropagateResult events and the initial watches recorded in Clauses::alloc, solver/encoding.rs Encode + TaskDone + EncodeResult events, negative assertions in the dump, conflict.rs verif_clauses",
 ]
 
 
